@@ -32,6 +32,10 @@ def _env(pythonpath: list[str]) -> dict:
     env["PYTHONPATH"] = ":".join([*pythonpath, str(VERIF)] + ([env["PYTHONPATH"]] if env.get("PYTHONPATH") else []))
     env["PYTHONDONTWRITEBYTECODE"] = "1"
     env.setdefault("PYTHONHASHSEED", "0")
+    # coverage.py (a development aid, tools/jcov.py) must never run inside a CrossHair process: its data file
+    # handling trips CrossHair's side-effect audit wall
+    for k in ("COVERAGE_PROCESS_START", "COVERAGE_PROCESS_CONFIG", "VERIF_JCOV"):
+        env.pop(k, None)
     return env
 
 
